@@ -27,6 +27,7 @@ type Solver struct {
 	name    string
 	cmd     *exec.Cmd
 	in      io.WriteCloser
+	bw      *bufio.Writer
 	out     *bufio.Reader
 	defined map[int]bool // composite term ids defined in the current path scope
 	declV   map[string]bool
@@ -65,7 +66,7 @@ func NewSolver(name string, timeoutMs int, logPath string) (*Solver, error) {
 	if err := cmd.Start(); err != nil {
 		return nil, err
 	}
-	s := &Solver{name: name, cmd: cmd, in: in, out: bufio.NewReaderSize(out, 1<<16), timeout: timeoutMs}
+	s := &Solver{name: name, cmd: cmd, in: in, bw: bufio.NewWriterSize(in, 1<<16), out: bufio.NewReaderSize(out, 1<<16), timeout: timeoutMs}
 	if logPath != "" {
 		s.log, _ = os.Create(logPath)
 	}
@@ -88,13 +89,15 @@ func (s *Solver) send(line string) {
 	if s.log != nil {
 		fmt.Fprintln(s.log, line)
 	}
-	if _, err := io.WriteString(s.in, line+"\n"); err != nil {
+	if _, err := s.bw.WriteString(line); err != nil {
 		s.dead = true
 	}
+	s.bw.WriteByte('\n')
 }
 
 func (s *Solver) Close() {
 	s.send("(exit)")
+	s.bw.Flush()
 	s.in.Close()
 	done := make(chan struct{})
 	go func() { s.cmd.Wait(); close(done) }()
@@ -184,6 +187,10 @@ func (s *Solver) Assert(tb *TB, t *Term) {
 
 // readResponse reads one s-expression or atom from the solver.
 func (s *Solver) readResponse() (string, error) {
+	if err := s.bw.Flush(); err != nil {
+		s.dead = true
+		return "", err
+	}
 	var sb strings.Builder
 	depth := 0
 	started := false
